@@ -155,6 +155,7 @@ type Use struct {
 	Free    map[string]bool // analyzer categories for which the statement of the property is silent on this shape
 	Feature string          // the single hostile feature of this use ("" = plain)
 	Alias   bool            // the mention goes through an alias name declared elsewhere (PKGO: not a mention of the item)
+	SpellAs string          // explicit spelling of the mention (e.g. a package-local alias declared in another file)
 }
 
 type Ignore struct {
